@@ -964,6 +964,9 @@ def norm_facts(f, n, loop_conditions=True, all_locals=False, canon=False):
             return
         out.append((render(c).replace(" ", ""), pol))
     for cid, pol in f.cfg.facts_at(n):
+        if isinstance(pol, tuple):
+            out.append(("switch(%s)==%s" % (render(f.nodes[cid]).replace(" ", ""), pol[1]), True))
+            continue
         if not loop_conditions:
             par = f.parent.get(cid)
             while par is not None and par["k"] in ("ImplicitCastExpr", "ParenExpr", "ExprWithCleanups"):
@@ -1212,5 +1215,7 @@ def norm_fact_nodes(f, n, all_locals=True):
             return
         out.append((c, pol))
     for cid, pol in f.cfg.facts_at(n):
+        if isinstance(pol, tuple):
+            continue
         add(expand_locals(f, f.nodes[cid], 0, all_locals), pol)
     return out
